@@ -1,0 +1,244 @@
+//go:build verif
+// +build verif
+
+package moss
+
+import "sync/atomic"
+
+// Read-only accessors for the verification harness (`-tags verif`).
+
+// VerifEntry is one operation of a segment.
+type VerifEntry struct {
+	Op       uint64
+	Key, Val []byte
+}
+
+// VerifStack is a dump of a segmentStack (or of a Footer's stack).
+type VerifStack struct {
+	Nil      bool           // the *segmentStack / *Footer pointer was nil
+	Segs     [][]VerifEntry // oldest first
+	IncarNum uint64
+	HasLL    bool // segmentStack.lowerLevelSnapshot != nil
+	Children map[string]*VerifStack
+	// Footer only:
+	PrevFooterOffset int64
+	FilePos          int64
+	FileName         string
+	Locs             []SegmentLoc
+}
+
+// VerifColl is the incarnation bookkeeping of a collection tree.
+type VerifColl struct {
+	IncarNum, HighestIncarNum uint64
+	Children                  map[string]*VerifColl
+}
+
+// VerifDump is a consistent dump of a collection taken under its lock.
+type VerifDump struct {
+	Top, Mid, Base, Clean *VerifStack
+	LL                    *VerifStack // lower-level snapshot, when it is a *Footer or *segmentStack
+	LLPresent             bool
+	Coll                  *VerifColl
+	Closed                bool
+	HasCached             bool
+
+	MergerAsleep      bool // waiting for incoming work, nothing pending that would wake it
+	MergerWaitOut     bool // waiting for the persister (dirty limits)
+	PersisterAsleep   bool // waiting for a base, none present
+	PendingPings      int
+	WaitIncomingArmed bool
+}
+
+func verifDumpSegment(seg Segment) []VerifEntry {
+	a, ok := seg.(*segment)
+	if !ok || a == nil {
+		return nil
+	}
+	a.RequestSort(true)
+	rv := make([]VerifEntry, 0, a.Len())
+	for i := 0; i < a.Len(); i++ {
+		op, k, v := a.getOperationKeyVal(i)
+		rv = append(rv, VerifEntry{Op: op,
+			Key: append([]byte{}, k...), Val: append([]byte{}, v...)})
+	}
+	return rv
+}
+
+func verifDumpStack(ss *segmentStack) *VerifStack {
+	if ss == nil {
+		return &VerifStack{Nil: true}
+	}
+	rv := &VerifStack{IncarNum: ss.incarNum, HasLL: ss.lowerLevelSnapshot != nil}
+	for _, seg := range ss.a {
+		rv.Segs = append(rv.Segs, verifDumpSegment(seg))
+	}
+	for name, child := range ss.childSegStacks {
+		if rv.Children == nil {
+			rv.Children = map[string]*VerifStack{}
+		}
+		rv.Children[name] = verifDumpStack(child)
+	}
+	return rv
+}
+
+// VerifDumpFooter dumps a store snapshot (a *Footer); other snapshot kinds
+// give a Nil dump.
+func VerifDumpFooter(snap Snapshot) *VerifStack {
+	f, ok := snap.(*Footer)
+	if !ok || f == nil {
+		if ss, ok := snap.(*segmentStack); ok {
+			return verifDumpStack(ss)
+		}
+		return &VerifStack{Nil: true}
+	}
+	f.m.Lock()
+	defer f.m.Unlock()
+	return verifDumpFooterLOCKED(f)
+}
+
+func verifDumpFooterLOCKED(f *Footer) *VerifStack {
+	rv := &VerifStack{IncarNum: f.incarNum, PrevFooterOffset: f.PrevFooterOffset,
+		FilePos: f.filePos, FileName: f.fileName}
+	rv.Locs = append(rv.Locs, f.SegmentLocs...)
+	for i := range rv.Locs {
+		rv.Locs[i].mref = nil
+	}
+	if f.ss != nil {
+		for _, seg := range f.ss.a {
+			rv.Segs = append(rv.Segs, verifDumpSegment(seg))
+		}
+	}
+	for name, child := range f.ChildFooters {
+		if rv.Children == nil {
+			rv.Children = map[string]*VerifStack{}
+		}
+		child.m.Lock()
+		rv.Children[name] = verifDumpFooterLOCKED(child)
+		child.m.Unlock()
+	}
+	return rv
+}
+
+func verifDumpColl(m *collection) *VerifColl {
+	rv := &VerifColl{IncarNum: m.incarNum, HighestIncarNum: m.highestIncarNum}
+	for name, child := range m.childCollections {
+		if rv.Children == nil {
+			rv.Children = map[string]*VerifColl{}
+		}
+		rv.Children[name] = verifDumpColl(child)
+	}
+	return rv
+}
+
+// VerifDumpCollection dumps the sections of a collection under its lock.
+func VerifDumpCollection(c Collection) *VerifDump {
+	m, ok := c.(*collection)
+	if !ok {
+		return nil
+	}
+	m.m.Lock()
+	defer m.m.Unlock()
+	rv := &VerifDump{
+		Top:       verifDumpStack(m.stackDirtyTop),
+		Mid:       verifDumpStack(m.stackDirtyMid),
+		Base:      verifDumpStack(m.stackDirtyBase),
+		Clean:     verifDumpStack(m.stackClean),
+		Coll:      verifDumpColl(m),
+		Closed:    m.isClosed(),
+		HasCached: m.latestSnapshot != nil,
+	}
+	if m.lowerLevelSnapshot != nil {
+		rv.LLPresent = true
+		m.lowerLevelSnapshot.m.Lock()
+		rv.LL = VerifDumpFooter(m.lowerLevelSnapshot.ss)
+		m.lowerLevelSnapshot.m.Unlock()
+	}
+	rv.PendingPings = len(m.pingMergerCh)
+	rv.WaitIncomingArmed = m.waitDirtyIncomingCh != nil
+	inBeg := atomic.LoadUint64(&m.stats.TotMergerWaitIncomingBeg)
+	inEnd := atomic.LoadUint64(&m.stats.TotMergerWaitIncomingEnd) +
+		atomic.LoadUint64(&m.stats.TotMergerWaitIncomingStop)
+	rv.MergerAsleep = inBeg == inEnd+1 && rv.WaitIncomingArmed && rv.PendingPings == 0
+	outBeg := atomic.LoadUint64(&m.stats.TotMergerWaitOutgoingBeg)
+	outEnd := atomic.LoadUint64(&m.stats.TotMergerWaitOutgoingEnd) +
+		atomic.LoadUint64(&m.stats.TotMergerWaitOutgoingStop)
+	rv.MergerWaitOut = outBeg == outEnd+1
+	pBeg := atomic.LoadUint64(&m.stats.TotPersisterWaitBeg)
+	pEnd := atomic.LoadUint64(&m.stats.TotPersisterWaitEnd)
+	rv.PersisterAsleep = pBeg == pEnd+1 && m.stackDirtyBase == nil
+	return rv
+}
+
+// Function-level exports for the codec / index / policy correspondence.
+
+func VerifEncode(op uint64, keyLen, valLen int) uint64 {
+	return encodeOpKeyLenValLen(op, keyLen, valLen)
+}
+
+func VerifDecode(w uint64) (uint64, int, int) { return decodeOpKeyLenValLen(w) }
+
+func VerifPageAlignCeil(pos int64) int64 { return pageAlignCeil(pos) }
+
+func VerifPageAlignFloor(pos int64) int64 { return pageAlignFloor(pos) }
+
+func VerifPageOffset(pos, pageSize int64) int64 { return pageOffset(pos, pageSize) }
+
+func VerifSharedPrefixLen(a, b []byte) int { return sharedPrefixLen(a, b) }
+
+// VerifCalcPartialCompactionStart evaluates the leveling policy on segment
+// sizes (key+val bytes, oldest first) for a file of the given size.
+func VerifCalcPartialCompactionStart(sizes []uint64, fileSize int64,
+	newDataSize uint64, options *StoreOptions) (int, bool) {
+	slocs := make(SegmentLocs, len(sizes))
+	fref := &FileRef{file: &verifSizedFile{size: fileSize}, refs: 1}
+	for i, sz := range sizes {
+		slocs[i] = SegmentLoc{TotKeyByte: sz, mref: &mmapRef{fref: fref, refs: 1}}
+	}
+	return calcPartialCompactionStart(slocs, newDataSize, options)
+}
+
+// VerifCalcTargetTopLevel evaluates the merger's level heuristic on segment
+// lengths (oldest first).
+func VerifCalcTargetTopLevel(lens []int, minMergePercentage float64) int {
+	ss := &segmentStack{options: &CollectionOptions{MinMergePercentage: minMergePercentage}}
+	for _, n := range lens {
+		seg, _ := newSegment(n, n)
+		for i := 0; i < n; i++ {
+			seg.mutate(OperationSet, []byte{byte(i >> 8), byte(i)}, nil)
+		}
+		ss.a = append(ss.a, seg)
+	}
+	return ss.calcTargetTopLevel()
+}
+
+// VerifIndex builds a key index over sorted keys exactly as a loaded segment
+// would and answers lookups through it.
+type VerifIndex struct{ seg *segment }
+
+// NewVerifIndex builds a segment holding keys (already sorted, unique) with
+// empty values and indexes it with the given quota / minimum key bytes.
+func NewVerifIndex(keys [][]byte, quota, minKeyBytes int) *VerifIndex {
+	seg, _ := newSegment(len(keys), 0)
+	for _, k := range keys {
+		seg.mutate(OperationSet, k, nil)
+	}
+	seg.buildIndex(quota, minKeyBytes)
+	return &VerifIndex{seg: seg}
+}
+
+// Indexed reports whether an index was built, and its hop and key count.
+func (v *VerifIndex) Indexed() (bool, int, int) {
+	if v.seg.index == nil {
+		return false, 0, 0
+	}
+	return true, v.seg.index.hop, v.seg.index.numKeys
+}
+
+// Window returns searchIndex(key).
+func (v *VerifIndex) Window(key []byte) (int, int) { return v.seg.searchIndex(key) }
+
+// FindKeyPos returns findKeyPos(key).
+func (v *VerifIndex) FindKeyPos(key []byte) (int, error) { return v.seg.findKeyPos(key) }
+
+// FindStart returns findStartKeyInclusivePos(key).
+func (v *VerifIndex) FindStart(key []byte) int { return v.seg.findStartKeyInclusivePos(key) }
